@@ -503,11 +503,12 @@ func (m *Mux) serveHTTP(w http.ResponseWriter, r *http.Request) error {
 	}
 	herr := hd.handler(&m.opts, stream)
 	// Handle stats.
+	// Try to send Trailers, might not be respected. Done whether or not a
+	// stats handler is installed: stats must not change the response.
+	setOutgoingHeader(w.Header(), stream.trailer)
 	if sh := m.opts.statsHandler; sh != nil {
 		endTime := time.Now()
 
-		// Try to send Trailers, might not be respected.
-		setOutgoingHeader(w.Header(), stream.trailer)
 		sh.HandleRPC(ctx, &stats.OutTrailer{
 			Trailer: stream.trailer.Copy(),
 		})
